@@ -20,7 +20,9 @@ RULE = ('Hypothesis builds directory layouts in a private temporary directory: i
         'real path is outside realpath(dir) is a violation; a name whose documented lookup '
         '(exact, +.tex, +.latex) designates a regular file inside must return its marker; with no '
         'directory set the result is empty and open() is never called. Checked through '
-        'read_input_file(), latex_to_text(\\input{..}) and \\include. Non-trivial = name leaves '
+        'read_input_file(), latex_to_text(\\input{..}) and \\include. Every layout is also asked for the including file through an outside link (its nested names '
+        'exist only outside). '
+        'Non-trivial = name leaves '
         'the directory lexically or through a link, or needs the extension fallback; distinct by '
         '(layout, name).')
 ASSUMPTIONS = [
